@@ -42,6 +42,8 @@ def main():
             "technique": m["technique"],
         })
     na = [{"property_id": pid, "reason": na_reasons.get(pid, NOT_YET)} for pid in IDS if pid not in claimed]
+    extras = sorted(f[:-5] for f in os.listdir(META) if f.startswith("X") and f.endswith(".json")
+                    and os.path.exists(os.path.join(HERE, "lenaverif", "props", f[:-5].lower() + ".py")))
     man = {
         "version": 1,
         "setup_cmd": "sh tools/setup.sh",
@@ -60,8 +62,17 @@ def main():
                               "real lena objects (spec->code); behaviour recorded from lena validated by Trace_*.tla (code->spec)",
         }],
         "checks": checks,
-        "notes": "All checks run with /venv/bin/python against $LENA_REPO (default /repo) working tree; nothing is compiled.",
+        "notes": "All checks run with /venv/bin/python against $LENA_REPO (default /repo) working tree; nothing is compiled. "
+                 "The specification library also covers behaviour beyond the listed properties: extra checks "
+                 + ", ".join(extras) + " (`./check Xnn --tier quick|thorough`, statements in lenaverif/props/meta/Xnn.json, "
+                 "evidence in evidence/extra/, see DESIGN.md 9.1); they are not MANIFEST checks because the property list is fixed.",
     }
+    if extras:
+        man["engines"].append({
+            "name": "tlc+replay (extras)", "path": "lenaverif/props/x*.py", "serves_properties": [],
+            "kind_free_text": "same technique applied to statements taken from lena's documentation for parts of the library "
+                              "that no listed property names: " + "; ".join(
+                                  "%s %s" % (x, json.load(open(os.path.join(META, x + ".json"))).get("title", "")) for x in extras)})
     if na:
         man["not_applicable"] = na
     with open(os.path.join(HERE, "MANIFEST.json"), "w") as f:
